@@ -179,7 +179,7 @@ pub fn run(args: &Args, rep: &mut Report) {
     rep.distinct_by_construction += exh;
     rep.count("exhaustive_sequences", exh);
     // (3) random sequences for every k in 1..=32
-    let n = args.get_u64("n", if miri { 8 } else if t { 400_000 } else { 12_000 });
+    let n = args.get_u64("n", if miri { 8 } else if t { 3_000_000 } else { 12_000 });
     for i in 0..n {
         if !args.mine(i) {
             continue;
